@@ -283,7 +283,16 @@ class Simulator:
 
                 if self.simulation_parameters is None:
                     self.simulation_parameters = []
-                self.simulation_parameters.append(self.model.get_parameter_values())
+                # All parameters, also the ones defined by an initial assignment: when
+                # they are changed later this segment still reports its own value
+                if (cache := self.model._cache) is None:  # noqa: SLF001
+                    cache = self.model._create_cache()  # noqa: SLF001
+                self.simulation_parameters.append(
+                    {
+                        k: cache.all_parameter_values[k]
+                        for k in self.model.get_raw_parameters(as_copy=False)
+                    }
+                )
             case _ as e:
                 self._errors.append(e)
 
